@@ -6,6 +6,7 @@
 import Driver.Codec
 import Driver.Ctl
 import Driver.Xml
+import Driver.Theme
 open Svgdx Driver
 
 def errLine (e : Err) : String := joinFields [cs!"err", e.name.toList]
@@ -163,7 +164,10 @@ def handle (line : String) : String :=
       | none =>
         match handleXml op args with
         | some r => r
-        | none => "bad-op"
+        | none =>
+          match handleTheme op args with
+          | some r => r
+          | none => "bad-op"
   | [] => "bad-op"
 
 partial def loop (h : IO.FS.Stream) (out : IO.FS.Stream) : IO Unit := do
